@@ -71,27 +71,28 @@ type violOut struct {
 }
 
 type workerResult struct {
-	Prop        string                   `json:"prop"`
-	Build       string                   `json:"build"`
-	Seed        uint64                   `json:"seed"`
-	Evaluations int64                    `json:"evaluations"`
-	Nontrivial  int64                    `json:"nontrivial"`
-	PerFamily   map[string]int64         `json:"per_family"`
-	Faults      map[string]int64         `json:"faults_fired"`
-	Reach       map[string]int64         `json:"reach"`
-	Outcomes    map[string]int64         `json:"outcomes"`
-	Configs     map[string]int64         `json:"configs"`
-	SimNS       int64                    `json:"sim_ns"`
-	Steps       int64                    `json:"steps"`
-	Switches    int64                    `json:"switches"`
-	Preempts    int64                    `json:"preempts"`
-	Violations  []violOut                `json:"violations"`
-	NViol       int64                    `json:"n_violations"`
-	Samples     []map[string]interface{} `json:"samples"`
-	HarnessErrs []string                 `json:"harness_errors"`
-	Hashes      map[string]string        `json:"hashes"`
-	WallS       float64                  `json:"wall_s"`
-	Done        bool                     `json:"done"`
+	Prop        string                      `json:"prop"`
+	Build       string                      `json:"build"`
+	Seed        uint64                      `json:"seed"`
+	Evaluations int64                       `json:"evaluations"`
+	Nontrivial  int64                       `json:"nontrivial"`
+	PerFamily   map[string]int64            `json:"per_family"`
+	Faults      map[string]int64            `json:"faults_fired"`
+	Reach       map[string]int64            `json:"reach"`
+	Outcomes    map[string]int64            `json:"outcomes"`
+	Configs     map[string]int64            `json:"configs"`
+	SimNS       int64                       `json:"sim_ns"`
+	Steps       int64                       `json:"steps"`
+	Switches    int64                       `json:"switches"`
+	Preempts    int64                       `json:"preempts"`
+	Violations  []violOut                   `json:"violations"`
+	NViol       int64                       `json:"n_violations"`
+	Samples     []map[string]interface{}    `json:"samples"`
+	HarnessErrs []string                    `json:"harness_errors"`
+	Hashes      map[string]string           `json:"hashes"`
+	WallS       float64                     `json:"wall_s"`
+	Done        bool                        `json:"done"`
+	Extra       map[string]map[string]int64 `json:"extra"`
 }
 
 type replayFile struct {
@@ -696,6 +697,23 @@ func cmdCheck(prop, tier string) int {
 			agg.Switches += r.Switches
 			agg.Preempts += r.Preempts
 			agg.NViol += r.NViol
+			for g, m := range r.Extra {
+				if agg.Extra == nil {
+					agg.Extra = map[string]map[string]int64{}
+				}
+				if agg.Extra[g] == nil {
+					agg.Extra[g] = map[string]int64{}
+				}
+				for k, v := range m {
+					if strings.HasPrefix(k, "expected") || strings.HasPrefix(k, "records") {
+						if v > agg.Extra[g][k] {
+							agg.Extra[g][k] = v
+						}
+					} else {
+						agg.Extra[g][k] += v
+					}
+				}
+			}
 			viols = append(viols, r.Violations...)
 			herrs = append(herrs, r.HarnessErrs...)
 			if len(agg.Samples) < 6 {
@@ -843,6 +861,7 @@ func cmdCheck(prop, tier string) int {
 			"worker_deaths":        len(crashes),
 			"harness_errors":       len(herrs),
 			"replay_files_written": replayPaths,
+			"counter_groups":       agg.Extra,
 		},
 		"assumptions": pc.Assume,
 	}
